@@ -90,12 +90,23 @@ pub struct Counts {
     pub err: u64,
     pub hard: u64,
     pub worker_restarts: u64,
+    /// cases that were not run because the cap on hard failures was reached (0 on a tree that
+    /// has no such failures; a run that hits the cap has violations to report anyway)
+    pub skipped_after_cap: u64,
 }
 
+/// After this many crashes / overflows / timeouts the remaining cases are not run any more: each
+/// costs a worker restart (a timeout also its full time), and the verdict is settled long before.
+pub const HARD_CAP: u64 = 160;
+
 /// Run one chunk in one worker process, restarting after every hard failure.
-fn run_chunk(exe: &std::path::Path, cases: &[Case], base: usize, timeout: Duration, on_hard: &(dyn Fn(usize, Hard) + Sync), ok: &AtomicU64, err: &AtomicU64, restarts: &AtomicU64) {
+fn run_chunk(exe: &std::path::Path, cases: &[Case], base: usize, timeout: Duration, on_hard: &(dyn Fn(usize, Hard) + Sync), ok: &AtomicU64, err: &AtomicU64, restarts: &AtomicU64, hard_seen: &AtomicU64, skipped: &AtomicU64) {
     let mut start = 0usize;
     while start < cases.len() {
+        if hard_seen.load(Ordering::Relaxed) >= HARD_CAP {
+            skipped.fetch_add((cases.len() - start) as u64, Ordering::Relaxed);
+            return;
+        }
         let mut child = Command::new(exe)
             .arg("worker16")
             .env("RUST_BACKTRACE", "0")
@@ -210,6 +221,7 @@ pub fn run_cases(cases: &[Case], nworkers: usize, timeout: Duration, on_hard: &(
     let err = AtomicU64::new(0);
     let restarts = AtomicU64::new(0);
     let hard = AtomicU64::new(0);
+    let skipped = AtomicU64::new(0);
     let chunk = 4000usize;
     let nchunks = (cases.len() + chunk - 1) / chunk;
     let next = AtomicUsize::new(0);
@@ -226,11 +238,11 @@ pub fn run_cases(cases: &[Case], nworkers: usize, timeout: Duration, on_hard: &(
                 }
                 let lo = c * chunk;
                 let hi = (lo + chunk).min(cases.len());
-                run_chunk(&exe, &cases[lo..hi], lo, timeout, &counting, &ok, &err, &restarts);
+                run_chunk(&exe, &cases[lo..hi], lo, timeout, &counting, &ok, &err, &restarts, &hard, &skipped);
             });
         }
     });
-    Counts { ok: ok.load(Ordering::Relaxed), err: err.load(Ordering::Relaxed), hard: hard.load(Ordering::Relaxed), worker_restarts: restarts.load(Ordering::Relaxed) }
+    Counts { ok: ok.load(Ordering::Relaxed), err: err.load(Ordering::Relaxed), hard: hard.load(Ordering::Relaxed), worker_restarts: restarts.load(Ordering::Relaxed), skipped_after_cap: skipped.load(Ordering::Relaxed) }
 }
 
 /// Re-run one case alone with a long timeout (used before a timeout is called a hang).
